@@ -10,6 +10,10 @@ import parser "github.com/acekingke/yaccgo/Parser"
 // spec_rhsText(rp, n): the display names of the first n right-hand-side identifiers, each followed by a blank
 func spec_rhsText(rp []*parser.Idendity, n int) string { panic("spec") }
 
+func spec_ints(a []int, n int) string     { panic("spec") }
+func spec_rows(t [][]int, n int) string   { panic("spec") }
+func spec_rowsTs(t [][]int, n int) string { panic("spec") }
+
 // ---------------------------------------------------------------------------------------------
 // C19: a failed generation never damages an existing output file.
 // Typestate: once os.Create has been called, only input-infallible I/O steps may follow. Every function of
@@ -115,6 +119,7 @@ func spec_rhsText(rp []*parser.Idendity, n int) string { panic("spec") }
 //@ emits [C11,C06,C08,C01,C02] "\tcase %d:\n \tconv = %d;\nbreak;\n" arg1 == sy.Value
 //@ emits [C11,C06,C08,C01,C02] "\tcase %d:\n \tconv = %d;\nbreak;\n" arg2 == sy.ID
 //@ emits [C11,C06,C08,C01,C02] "\tcase %d:\n \tconv = %d;\nbreak;\n" assert !sy.IsNonTerminator
+//@ before_stmt [C11,C06,C08,C01,C02] `if !sy.IsNonTerminator { caseCodes += fmt.Sprintf("\tcase %d:\n \tconv = %d;\nbreak;\n", sy.Value, sy.ID) }` true
 
 //@ func (*TsBuilder).buildReduceFunc
 //@ props C01 C07 C08
@@ -140,6 +145,8 @@ func spec_rhsText(rp []*parser.Idendity, n int) string { panic("spec") }
 //@ emits [C11,C06,C01,C02] "\tcase %d:\n \tconv = %d\n" arg1 == sy.Value
 //@ emits [C11,C06,C01,C02] "\tcase %d:\n \tconv = %d\n" arg2 == sy.ID
 //@ emits [C11,C06,C01,C02] "\tcase %d:\n \tconv = %d\n" assert !sy.IsNonTerminator
+// ... and EVERY terminal gets its case (the end marker $ with code -1 included): the guard of the emitting statement is exactly "is a terminal"
+//@ before_stmt [C11,C06,C01,C02] `if !sy.IsNonTerminator { caseCodes += fmt.Sprintf("\tcase %d:\n \tconv = %d\n", sy.Value, sy.ID) }` true
 // TraceTranslate: symbol id -> display name
 //@ emits [C17] `conv = \"%s\"` arg1 == sy.ID
 //@ emits [C17] `conv = \"%s\"` arg2 == parser.RemoveTempName(sy.Name)
@@ -154,3 +161,43 @@ func spec_rhsText(rp []*parser.Idendity, n int) string { panic("spec") }
 //@ loop 3: invariant [C17] rightPartString == spec_rhsText(oneRule.RighPart, idx3)
 //@ emits [C17] "%s -> %s" arg2 == spec_rhsText(b.vnode.rules[i-1].RighPart, len(b.vnode.rules[i-1].RighPart))
 //@ use RHS0, RHSS
+
+// ---------------------------------------------------------------------------------------------
+// C05 / C01 / C02 / C06 / C08: the tables as text. The numbers written into the generated file are the entries of the
+// dense table (row by row, in order) or of the five packed arrays, each array under its own name and in its own slot of the
+// template. spec_ints(s, n) is the text of the first n entries ("<v>,\t" each); spec_rows / spec_rowsTs the text of the first n rows.
+//@ axiom INTS0: forall a []int :: spec_ints(a, 0) == ""
+//@ axiom INTSS: forall a []int, n int :: 0 <= n && n < len(a) ==> spec_ints(a, n+1) == spec_ints(a, n) + fmt.Sprintf("%d,\t", a[n])
+//@ axiom ROWS0: forall t [][]int :: spec_rows(t, 0) == "" && spec_rowsTs(t, 0) == ""
+//@ axiom ROWSS: forall t [][]int, n int :: 0 <= n && n < len(t) ==> spec_rows(t, n+1) == ((spec_rows(t, n) + fmt.Sprintf("/* %d */ {", n)) + spec_ints(t[n], len(t[n]))) + "},\n"
+//@ axiom ROWST: forall t [][]int, n int :: 0 <= n && n < len(t) ==> spec_rowsTs(t, n+1) == ((spec_rowsTs(t, n) + fmt.Sprintf("/* %d */ [", n)) + spec_ints(t[n], len(t[n]))) + "],\n"
+
+//@ func (*TemplateBuilder).buildAnalyTable
+//@ props C05 C01 C02 C06 C08
+//@ use INTS0, INTSS, ROWS0, ROWSS
+//@ requires b != nil && b.vnode != nil && b.vnode.RuleVistor != nil && b.vnode.LALR1 != nil && b.vnode.G != nil && (forall i int :: 0 <= i && i < len(b.vnode.G.Symbols) ==> b.vnode.G.Symbols[i] != nil)
+//@ loop 1: invariant s == before(s) + spec_rows(b.vnode.GTable, idx1)
+//@ loop 2: invariant s == before(s) + spec_ints(row, idx2) && row == b.vnode.GTable[index]
+//@ loop 1: after s == before(s) + spec_rows(b.vnode.GTable, len(b.vnode.GTable))
+//@ before_stmt "b.AnalyTable = s" true
+//@ loop 3: invariant saction == spec_ints(b.vnode.ActionTable, idx3)
+//@ loop 4: invariant soffset == spec_ints(b.vnode.OffsetTable, idx4)
+//@ loop 5: invariant scheck == spec_ints(b.vnode.CheckTable, idx5)
+//@ loop 6: invariant sactdef == spec_ints(b.vnode.ActionDef, idx6)
+//@ loop 7: invariant sgotodef == spec_ints(b.vnode.GoToDef, idx7)
+//@ emits "?AnalyTable" assert AnalyTable == "\nvar StatePackAction = []int {\n\t%s \n}\nvar StatePackOffset = []int {\n\t%s\n}\nvar StackPackCheck = []int {\n\t%s\n}\nvar StackPackActDef = []int {\n\t%s\n}\nvar StackPackGotoDef = []int {\n\t%s\n}\n"
+//@ emits "?AnalyTable" arg1 == spec_ints(b.vnode.ActionTable, len(b.vnode.ActionTable))
+//@ emits "?AnalyTable" arg2 == spec_ints(b.vnode.OffsetTable, len(b.vnode.OffsetTable))
+//@ emits "?AnalyTable" arg3 == spec_ints(b.vnode.CheckTable, len(b.vnode.CheckTable))
+//@ emits "?AnalyTable" arg4 == spec_ints(b.vnode.ActionDef, len(b.vnode.ActionDef))
+//@ emits "?AnalyTable" arg5 == spec_ints(b.vnode.GoToDef, len(b.vnode.GoToDef))
+//@ before_stmt "b.PackAnalyTable = fmt.Sprintf(AnalyTable, saction, soffset, scheck, sactdef, sgotodef)" true
+
+//@ func (*TsBuilder).buildAnalyTable
+//@ props C05 C01 C02 C06 C08
+//@ use INTS0, INTSS, ROWS0, ROWST
+//@ requires b != nil && b.vnode != nil && b.vnode.RuleVistor != nil && b.vnode.LALR1 != nil && b.vnode.G != nil && (forall i int :: 0 <= i && i < len(b.vnode.G.Symbols) ==> b.vnode.G.Symbols[i] != nil)
+//@ loop 1: invariant s == before(s) + spec_rowsTs(b.vnode.GTable, idx1)
+//@ loop 2: invariant s == before(s) + spec_ints(row, idx2) && row == b.vnode.GTable[index]
+//@ emits "?AnalyTable" assert AnalyTable == "\nvar StateActionArray :number[][] =[\n\t%s \n]\n"
+//@ emits "?AnalyTable" assert exists h string :: s == h + spec_rowsTs(b.vnode.GTable, len(b.vnode.GTable))
